@@ -7,7 +7,7 @@ ops (JSON):  ['msg', addr, thread, spec]   a closure arrives on the wl_connectio
 import re
 from . import env, gdbsim, histgen, model, session
 from .runner import Result, Draw
-from .props.c12 import Model as BreakModel
+from .accmodel import Model as BreakModel
 
 COMMANDS = ('help', 'list', 'filter', 'breakpoint', 'matcher', 'connection', 'resume', 'quit')
 ATOMS = ['wl_display', '.sync', '.bind', 'wl_registry', '.delete_id', 'wl_callback', 'A:', 'B:', 'C:', '.new', '.destroyed', '2', '3', '3a', '2b', 'wl_callback.done',
@@ -300,7 +300,7 @@ def make_machine(col, stage, tier, check_c10, check_c15, weights):
             if self.ex is None or self.ex.quit:
                 return
             d = Draw(data)
-            k = d.weighted([(5, 'breakpoint'), (6, 'connection'), (4, 'resume'), (1, 'quit'), (3, 'other')]) if check_c10 else d.weighted(
+            k = d.weighted([(5, 'breakpoint'), (6, 'connection'), (4, 'resume'), (1, 'quit'), (3, 'other'), (4, 'filter')]) if check_c10 else d.weighted(
                 [(1, 'breakpoint'), (3, 'connection'), (2, 'resume'), (3, 'other')])
             if k == 'breakpoint':
                 word, arg = d.choice(['breakpoint', 'b', 'break', 'wlbreakpoint']), gen_break_text(d)
@@ -310,6 +310,9 @@ def make_machine(col, stage, tier, check_c10, check_c15, weights):
                 word, arg = d.choice(['resume', 'r', 'res']), ''
             elif k == 'quit':
                 word, arg = d.choice(['quit', 'q']), ''
+            elif k == 'filter':
+                # the output filter decides what is displayed, never whether the program halts
+                word, arg = d.choice(['filter', 'f']), d.choice(['!', '*', 'wl_registry', 'wl_display', '.nope', 'B:', '* ! .sync', 'wl_callback'])
             else:
                 word, arg = d.choice(['help', 'list', 'filter', 'matcher', 'frob', 'l', 'filter wl_display', 'list ~ 2', 'breakpoint', 'connection', 'h resume']), ''
             if d.chance(0.3) and word in COMMANDS:
